@@ -231,6 +231,13 @@ def r4_order(c, facts):
     for s in seq:
         bs = P.call_blocks(fn, s)
         if not bs:
+            # `prog.imports().try_for_each(|import| declare_import(..))`: the phase runs where the closure is created
+            for cl in facts.closures_of(fn):
+                if P.call_blocks(cl, s):
+                    for b2, blk in fn.blocks():
+                        if any(st['s'] == 'assign' and st['rv']['r'] == 'aggr' and st['rv'].get('closure_id') == cl.id for st in blk['stmts']):
+                            bs = [(b2, None)]
+        if not bs:
             c.bad(R, 'phase-missing:' + s, 'resolve() no longer calls ' + s)
         else:
             where[s] = bs[0][0]
